@@ -294,6 +294,8 @@ def run_job(job):
         o = opts[oi]
         if entry in ('to_graph', 'convert') and not (o.user_requested and o.internal_convert_user_code):
             entry = 'transform'
+        if slot in ('ld', 'lu') and entry in ('convert', 'converted_call'):
+            entry = 'transform'   # the looper's observable is a shared counter: it is only called at checkpoints
         plan = build_plan(plan_spec) if entry == 'transform' else None
         if plan is not None and plan.nested is not None:
             nfn, nopt, _ = plan.nested
